@@ -17,7 +17,7 @@
 using namespace vh;
 using namespace c04;
 
-// see c04_krige.cpp: NeighMoving without coefficients measures a 2-D distance whatever the space (1-D: ASan report)
+// see c04_krige.cpp: NeighMoving without coefficients measured a 2-D distance whatever the space (1-D: ASan report); fixed in /repo 7983a8b7b
 static const bool AVOID_NEIGHMOVING_NDIM2_1D = false || getenv("C04_DEV_AVOID") != nullptr; // env: developer runs only
 
 static const double TIE = 1e-7;
@@ -215,7 +215,7 @@ static void caseNeigh(Rng& r, Ctx& c)
   bool radiusOn = r.coin(0.5);
   double radius = radiusOn ? L * r.loguni(0.35, 1.5) : UNDEF;
   bool coeffs   = r.coin(0.6);
-  if (ndim == 1 && !coeffs && (AVOID_NEIGHMOVING_NDIM2_1D || !r.coin(0.2))) coeffs = true; // known crash class: 1 in 5 only
+  if (AVOID_NEIGHMOVING_NDIM2_1D && ndim == 1) coeffs = true;
   int leaf = 1 + (int)(r.next() % 15);
   c.setSig(fmt("neigh-ball:ndim=%d:nvar=%d:het=%d:sel=%d:radius=%d:coeffs=%d:xvalid=%d:nmaxi=%s", ndim, nvar, het, selA, (int)radiusOn,
                (int)coeffs, (int)xval, nmaxi <= 3 ? "small" : "mid"));
@@ -242,8 +242,8 @@ static void caseNeigh(Rng& r, Ctx& c)
   }
   std::string what = fmt("ndim=%d n=%d nmaxi=%d radius=%g coeffs=%d sel=%d het=%d xvalid=%d leaf=%d", ndim, n, nmaxi, radiusOn ? radius : -1.,
                          (int)coeffs, selA, het, (int)xval, leaf);
-  // without coefficients the scan distance is 2-D whatever the space: in 3-D the statement's precondition (Euclidean)
-  // does not describe that path any more -> own key (finding), own oracle family
+  // without coefficients the scan distance used to be 2-D whatever the space (fixed in /repo 7983a8b7b): in 3-D that
+  // input class keeps its own key and oracle family
   bool cls3d       = (!coeffs && ndim == 3);
   std::string key  = cls3d ? "C04:neigh-ball:no-coeffs-3d" : "C04:neigh-ball:select";
   std::string orc  = cls3d ? "nbx-select-nocoeffs3d" : "nb-select";
@@ -286,10 +286,10 @@ static void caseNeigh(Rng& r, Ctx& c)
     c.check(orc, key, same, same ? 0 : 1, 0,
             what + fmt(" target=%d scan=%s ball=%s", t, jvec(a, 20).c_str(), jvec(b, 20).c_str()));
     // under the precondition (and with an Euclidean search distance) both must be exactly the nmaxi nearest samples
-    if (!cls3d)
     {
       bool okS = (a == want);
-      c.check("nb-scan-vs-brute", "C04:neigh-ball:scan-vs-bruteforce", okS, okS ? 0 : 1, 0,
+      c.check(cls3d ? "nbx-scan-vs-brute-nocoeffs3d" : "nb-scan-vs-brute",
+              cls3d ? "C04:neigh-ball:no-coeffs-3d" : "C04:neigh-ball:scan-vs-bruteforce", okS, okS ? 0 : 1, 0,
               what + fmt(" target=%d scan=%s want=%s", t, jvec(a, 20).c_str(), jvec(want, 20).c_str()));
     }
   }
